@@ -632,6 +632,8 @@ Record held_job : Type := {
 }.
 
 Record server : Type := {
+  ovl_ok : bool;                      (* can an overlay be mounted on the server's build directory? (not when that
+                                         directory itself lies on an overlay, e.g. the root of a container) *)
   cap : N;                            (* archives the TcCache has room for; 0 = no limit *)
   cached : list bytes;                (* toolchains in the TcCache, most recently stored first *)
   kinds : list (bytes * N);           (* which archive (1 or 2) a cached / unpacked id stands for *)
@@ -640,15 +642,16 @@ Record server : Type := {
   held : list held_job;               (* jobs whose compile is still running *)
 }.
 
-Definition server0 (c : N) : server :=
-  {| cap := c; cached := []; kinds := []; jobs := []; bld := builder0; held := [] |}.
+Definition server1 (ok : bool) (c : N) : server :=
+  {| ovl_ok := ok; cap := c; cached := []; kinds := []; jobs := []; bld := builder0; held := [] |}.
+Definition server0 (c : N) : server := server1 true c.
 
 Definition with_jobs (s : server) (j : list (N * bytes)) : server :=
-  {| cap := cap s; cached := cached s; kinds := kinds s; jobs := j; bld := bld s; held := held s |}.
+  {| ovl_ok := ovl_ok s; cap := cap s; cached := cached s; kinds := kinds s; jobs := j; bld := bld s; held := held s |}.
 Definition with_bld (s : server) (b : builder) : server :=
-  {| cap := cap s; cached := cached s; kinds := kinds s; jobs := jobs s; bld := b; held := held s |}.
+  {| ovl_ok := ovl_ok s; cap := cap s; cached := cached s; kinds := kinds s; jobs := jobs s; bld := b; held := held s |}.
 Definition with_held (s : server) (h : list held_job) : server :=
-  {| cap := cap s; cached := cached s; kinds := kinds s; jobs := jobs s; bld := bld s; held := h |}.
+  {| ovl_ok := ovl_ok s; cap := cap s; cached := cached s; kinds := kinds s; jobs := jobs s; bld := bld s; held := h |}.
 
 Fixpoint jlookup (j : N) (l : list (N * bytes)) : option bytes :=
   match l with
@@ -686,7 +689,7 @@ Definition submit (s : server) (j : N) (genuine : N) : server * submit_res :=
   | Some id =>
       if bmem id (cached s) then (s, SSuccess)
       else if valid_id id && negb (genuine =? 0) then
-        ({| cap := cap s; cached := cache_store (cap s) id (cached s); kinds := (id, genuine) :: kinds s;
+        ({| ovl_ok := ovl_ok s; cap := cap s; cached := cache_store (cap s) id (cached s); kinds := (id, genuine) :: kinds s;
             jobs := jobs s; bld := bld s; held := held s |}, SSuccess)
       else (s, SCannotCache)
   end.
@@ -699,6 +702,8 @@ Record job_obs : Type := {
   o_target : option bytes;                 (* builds/<name>/target, once the job was started *)
   o_snap : tree;                           (* what the job found in its root *)
   o_outputs : list (bytes * bytes);
+  o_cwd : bytes;                           (* of the request (for the launcher's argument vector) *)
+  o_env : list (bytes * bytes);
 }.
 
 Record job_req : Type := {
@@ -709,7 +714,35 @@ Record job_req : Type := {
   r_outs : list bytes;
   r_inputs : list member;
   r_writes : list jwrite;
+  r_env : list (bytes * bytes);            (* the client's environment variables *)
 }.
+
+(* ---- the launcher: bubblewrap is the one program the server starts ON THE HOST for a job.  Client data reaches
+   it as ARGUMENTS only; a client variable is data for the sandboxed command (`--setenv K V`), never part of the
+   launcher's own environment, which is the server's. *)
+Definition has_byte (c : N) (b : bytes) : bool := existsb (N.eqb c) b.
+
+(* "Skipping environment variable": names with '=' are dropped *)
+Definition client_env (env : list (bytes * bytes)) : list (bytes * bytes) :=
+  filter (fun e => negb (has_byte 61 (fst e))) env.
+
+Definition s_setenv : bytes := bs "--setenv".
+
+Definition bwrap_argv (target cwd : bytes) (env : list (bytes * bytes)) : list bytes :=
+  [bs "--die-with-parent"; bs "--cap-drop"; bs "ALL"; bs "--unshare-user"; bs "--unshare-cgroup"; bs "--unshare-ipc";
+   bs "--unshare-pid"; bs "--unshare-net"; bs "--unshare-uts"; bs "--bind"; target; bs "/"; bs "--proc"; bs "/proc";
+   bs "--dev"; bs "/dev"; bs "--chdir"; cwd]
+  ++ flat_map (fun e => [s_setenv; fst e; snd e]) (client_env env) ++ [bs "--"].
+
+Record launch : Type := {
+  l_env : list (bytes * bytes);      (* the environment the launcher process is started with *)
+  l_argv : list bytes;
+}.
+
+(* Command::new(bubblewrap) ... .output(): the child inherits the server's environment *)
+Definition spawn_launcher (server_env : list (bytes * bytes)) (target cwd : bytes) (env : list (bytes * bytes))
+  (exe : bytes) (args : list bytes) : launch :=
+  {| l_env := server_env; l_argv := bwrap_argv target cwd env ++ exe :: args |}.
 
 Definition kind_of (s : server) (id : bytes) : N :=
   match blookup id (kinds s) with Some k => k | None => 1 end.
@@ -731,13 +764,17 @@ Definition run_begin (s : server) (j : N) (r : job_req) : server * begun :=
       match onm with
       | None => (s2, BFailed)
       | Some nm =>
+          (* Overlay::writable(..).mount() fails: "Failed to mount overlay FS", the job is refused *)
+          if negb (ovl_ok s) then (s2, BAborted nm) else
           match fold_left unpack1 (r_inputs r) (Some (toolchain_tree_of (kind_of s id))) with
           | None => (s2, BAborted nm)
           | Some t0 =>
               match make_dirs t0 (r_cwd r) (r_outs r) with
               | None => (s2, BAborted nm)
               | Some t1 =>
-                  if existsb (N.eqb 0) (r_cwd r) then (s2, BAborted nm)   (* --chdir argument *)
+                  if existsb (N.eqb 0) (r_cwd r)                          (* --chdir argument *)
+                     || existsb (fun e => has_byte 0 (fst e) || has_byte 0 (snd e)) (client_env (r_env r))
+                  then (s2, BAborted nm)
                   else (s2, BRunning nm t1 (fold_left (fun t w => job_write t (r_cwd r) w) (r_writes r) t1))
               end
           end
@@ -774,15 +811,17 @@ Definition do_job (s : server) (j : N) (r : job_req) : server * job_obs :=
   let '(s2, a, sb) := assign_submit s j r in
   if r_run r then
     let '(s3, (rr, tg, sn, outs)) := run s2 j r in
-    (s3, {| o_head := 0; o_assign := a; o_submit := sb; o_run := rr; o_target := tg; o_snap := sn; o_outputs := outs |})
+    (s3, {| o_head := 0; o_assign := a; o_submit := sb; o_run := rr; o_target := tg; o_snap := sn; o_outputs := outs;
+           o_cwd := r_cwd r; o_env := r_env r |})
   else
-    (s2, {| o_head := 0; o_assign := a; o_submit := sb; o_run := RSkipped; o_target := None; o_snap := []; o_outputs := [] |}).
+    (s2, {| o_head := 0; o_assign := a; o_submit := sb; o_run := RSkipped; o_target := None; o_snap := []; o_outputs := [];
+           o_cwd := r_cwd r; o_env := r_env r |}).
 
 (* the same request, but the compile stays running until it is released *)
 Definition do_start (s : server) (j key : N) (r : job_req) : server * job_obs :=
   let '(s2, a, sb) := assign_submit s j r in
   let ob rr tg sn := {| o_head := 1; o_assign := a; o_submit := sb; o_run := rr; o_target := tg; o_snap := sn;
-                        o_outputs := [] |} in
+                        o_outputs := []; o_cwd := r_cwd r; o_env := r_env r |} in
   if r_run r then
     match run_begin s2 j r with
     | (s', BNotFound) => (s', ob RNotFound None [])
@@ -806,7 +845,7 @@ Fixpoint take_held (key : N) (l : list held_job) : option (held_job * list held_
 
 Definition do_release (s : server) (key : N) : server * job_obs :=
   let ob rr outs := {| o_head := 2; o_assign := AReady; o_submit := SSkipped; o_run := rr; o_target := None;
-                       o_snap := []; o_outputs := outs |} in
+                       o_snap := []; o_outputs := outs; o_cwd := []; o_env := [] |} in
   match take_held key (held s) with
   | None => (s, ob RNotRunning [])
   | Some (h, rest) =>
